@@ -11,7 +11,8 @@ SEARCH_N = {'quick': 2500, 'thorough': 15000}
 RULE = ('grids TSTEP 1..5 x LAY 1..4 x ROW 1..5 x COL 1..6; XORIG/YORIG/XCELL/YCELL multiples of 1/8 (binary64-exact), VGLVLS '
         'strictly decreasing multiples of 1/1024 (binary32-exact); SDATE/STIME biased to year ends, leap days and late evening so '
         'that time windows cross day and year boundaries; TSTEP from 1 s to 744 h incl. >= 24 h; windows per dimension: absent, '
-        'int (positive or negative, sometimes out of range), slice(a, b) with a, b in None or [-n-2, n+2] (touching either edge, '
+        'int (python int, np.int32, np.int64 or np.intp scalar; positive or negative, sometimes out of range; ROW and COL '
+        'together as a single-cell pick), slice(a, b) with a, b in None or [-n-2, n+2] (touching either edge, '
         'sometimes empty), alone or combined over TSTEP, LAY, ROW, COL. Non-trivial = the window differs from the whole file. '
         'Data cells are distinct integers and are compared with the source hyperslab as well.')
 TRUSTED = ['binary64/binary32 arithmetic of the library is exact on the generated dyadic coordinates',
@@ -27,9 +28,10 @@ def _sel(rng, n, malformed):
     if q < 0.35:
         return None
     if q < 0.62:
+        ity = rng.choice(['int', 'int', 'i32', 'i64', 'intp'])       # python int or numpy integer scalar
         if rng.random() < malformed:
-            return ['i', rng.choice([n, n + 1, -n - 1])]
-        return ['i', rng.randint(-n, n - 1)]
+            return ['i', rng.choice([n, n + 1, -n - 1]), ity]
+        return ['i', rng.randint(-n, n - 1), ity]
     a = rng.choice([None, None, rng.randint(-n - 2, n + 2), rng.randint(0, n), 0, 1, -1])
     b = rng.choice([None, None, rng.randint(-n - 2, n + 2), rng.randint(0, n), n, -1, n - 1])
     if rng.random() > malformed:           # mostly non-empty
@@ -61,7 +63,16 @@ def gen(rng, n, tier):
         w = dict(TSTEP=_sel(rng, nt, malformed), LAY=_sel(rng, nl, malformed), ROW=_sel(rng, nr, malformed), COL=_sel(rng, nc, malformed))
         if tier == 'search' and w['TSTEP'] is None:
             w['TSTEP'] = _sel(rng, nt, malformed)
-        kinds = [k[0] + (w[k][0] if w[k] else '-') for k in ('TSTEP', 'LAY', 'ROW', 'COL')]
+        if rng.random() < 0.12:      # a single cell picked by ROW and COL together (as from argmax / ll2ij), both int kinds
+            ity = rng.choice(['int', 'i32', 'i64', 'intp'])
+            w['ROW'] = ['i', rng.randint(-nr, nr - 1), ity]
+            w['COL'] = ['i', rng.randint(-nc, nc - 1), ity if rng.random() < 0.7 else rng.choice(['int', 'i32', 'i64', 'intp'])]
+
+        def kd(x):
+            if not x:
+                return '-'
+            return 'n' if (x[0] == 'i' and len(x) > 2 and x[2] != 'int') else x[0]      # n = numpy integer scalar
+        kinds = [k[0] + kd(w[k]) for k in ('TSTEP', 'LAY', 'ROW', 'COL')]
         out.append(dict(kind=''.join(kinds), nt=nt, nl=nl, nr=nr, nc=nc,
                         xorig=rng.randint(-2000000, 2000000), yorig=rng.randint(-2000000, 2000000),
                         xcell=rng.choice([8, 96000, 32000, 1, rng.randint(1, 400000)]),
@@ -74,7 +85,11 @@ def _pysel(s):
     if s is None:
         return slice(None)
     if s[0] == 'i':
-        return s[1]
+        ity = s[2] if len(s) > 2 else 'int'
+        if ity == 'int':
+            return s[1]
+        import numpy as np
+        return {'i32': np.int32, 'i64': np.int64, 'intp': np.intp}[ity](s[1])
     return slice(s[1], s[2])
 
 
